@@ -4,7 +4,7 @@
    ordering, exception class and warning by the correspondence check of this property. *)
 From Coq Require Import String ZArith List Bool.
 From XV Require Import Base.Label Base.LSet Base.ODict Base.Attr Base.Outcome Model.Hypergraph
-  Proofs.HgViews Proofs.HgInv Proofs.HgInvOps Proofs.HgStep Proofs.HgErrors Proofs.HgSpec Proofs.ShuffleProofs Proofs.DerivedProofs Proofs.HgSpecMore Model.DiHypergraph Proofs.DiSpec Model.SimplicialComplex Proofs.ScInv Proofs.ScExact Proofs.SetterProofs Proofs.ScClose.
+  Proofs.HgViews Proofs.HgInv Proofs.HgInvOps Proofs.HgStep Proofs.HgErrors Proofs.HgSpec Proofs.ShuffleProofs Proofs.DerivedProofs Proofs.HgSpecMore Model.DiHypergraph Proofs.DiSpec Model.SimplicialComplex Proofs.ScInv Proofs.ScExact Proofs.SetterProofs Proofs.ScClose Proofs.DiSpec2.
 Import ListNotations.
 Open Scope Z_scope.
 
@@ -192,6 +192,26 @@ Theorem C05_directed_remove_missing_edge : forall e d, has e (h_edge (ts d)) = f
   d_remove_edge e d = draise d IDNotFound.
 Proof. exact d_remove_edge_missing. Qed.
 Print Assumptions C05_directed_remove_missing_edge.
+
+(* explicit ids: a free id stores the edge under it; an id in use is refused with a warning, None among the members
+   with the library's error - and in both refusals the network is exactly as before *)
+Theorem C05_directed_add_edge_explicit : forall tl hd i a d, has_none tl = false -> has_none hd = false ->
+  has i (h_edge (ts d)) = false ->
+  let r := d_add_edge tl hd (Some i) a d in
+  let d' := dst_of r in
+  snd (fst r) = Ok /\
+  exists T H, (forall x, In x T <-> In x tl) /\ (forall x, In x H <-> In x hd) /\ NoDup T /\ NoDup H /\
+    forall e', get e' (h_edge (ts d')) = (if lbl_eqb e' i then Some T else get e' (h_edge (ts d))) /\
+               get e' (h_edge (hs d')) = (if lbl_eqb e' i then Some H else get e' (h_edge (hs d))).
+Proof. exact d_add_edge_explicit_effect. Qed.
+Print Assumptions C05_directed_add_edge_explicit.
+
+Theorem C05_directed_add_edge_refusals : forall tl hd a d,
+  (forall i, has_none tl = false -> has_none hd = false -> has i (h_edge (ts d)) = true ->
+             d_add_edge tl hd (Some i) a d = dwarn1 d) /\
+  (forall idx, has_none tl || has_none hd = true -> d_add_edge tl hd idx a d = draise d XGIError).
+Proof. intros. split; [intros; apply d_add_edge_dup_refused; assumption|intros; apply d_add_edge_none_refused; assumption]. Qed.
+Print Assumptions C05_directed_add_edge_refusals.
 
 (* strong removal of a node: exactly the edges with the node in their tail or head disappear *)
 Theorem C05_directed_remove_node_strong : forall n re d outs, get n (h_node (ts d)) = Some outs ->
